@@ -39,8 +39,8 @@ def _get_axes(*arrays):
 
             axis = o.axes[dim]
 
-            # update values
-            if common_axis is None or (common_axis.size==1 and axis.size > 1):
+            # update values (a singleton is replaced by a longer - or empty - axis, the dummy label None of an inserted dimension by any label)
+            if common_axis is None or (common_axis.size==1 and (axis.size != 1 or common_axis.values[0] is None)):
                 common_axis = axis
 
             # Test alignment for non-singleton axes
